@@ -10,6 +10,7 @@ import (
 	"flag"
 	"fmt"
 	"math/rand"
+	"strings"
 
 	"github.com/invopop/gobl/bill"
 	"github.com/invopop/gobl/currency"
@@ -775,6 +776,68 @@ func calcRun(w *tr.Writer, d jDoc, reg string, explicitRule bool, meta bool, r *
 			w.Emit(e)
 		}
 	}
+	// a document calculated earlier in another state (tax included or not, further adjustments, an advance) and then
+	// edited into this one, its totals still in place: nothing of the earlier figures survives the calculation
+	func() {
+		dp := d
+		if d.Inc == "" {
+			dp.Inc = "VAT"
+		} else {
+			dp.Inc = ""
+		}
+		unit := int64(1)
+		for k := 0; k < d.CD; k++ {
+			unit *= 10
+		}
+		one := tr.Amt{V: tr.BigOfInt(unit), E: d.CD}
+		dp.Discounts = append(append([]jDocAdj{}, d.Discounts...), jDocAdj{Pct: []tr.Amt{}, Base: []tr.Amt{}, Amount: one, Taxes: []jCombo{}})
+		dp.Charges = append(append([]jDocAdj{}, d.Charges...), jDocAdj{Pct: []tr.Amt{}, Base: []tr.Amt{}, Amount: one, Taxes: []jCombo{}})
+		dp.Advances = append(append([]jPay{}, d.Advances...), jPay{Pct: []tr.Amt{}, Amount: one})
+		dataP, err := docJSON(dp, "invoice", reg, explicitRule)
+		if err != nil {
+			return
+		}
+		xp := new(bill.Invoice)
+		if json.Unmarshal(dataP, xp) != nil || xp.Calculate() != nil {
+			return
+		}
+		outP, _ := json.Marshal(xp)
+		var mp, m map[string]any
+		data, _ := docJSON(d, "invoice", reg, explicitRule)
+		if json.Unmarshal(outP, &mp) != nil || json.Unmarshal(data, &m) != nil || mp["totals"] == nil {
+			return
+		}
+		if t, ok := m["totals"].(map[string]any); ok {
+			// what the input itself says about totals (a rounding) stays
+			st := mp["totals"].(map[string]any)
+			for k, v := range t {
+				st[k] = v
+			}
+		}
+		m["totals"] = mp["totals"]
+		b, _ := json.Marshal(m)
+		e := calcEvent{K: "stale", Kind: "invoice", Reg: ev.Reg, D: d, Ok: true, R: ev.R, R2: emptyRes(), Perm: []int{}, RoundingAfter: []tr.Amt{}}
+		func() {
+			defer func() {
+				if p := recover(); p != nil {
+					e.Ok2, e.Err2 = false, fmt.Sprintf("panic:%v", p)
+				}
+			}()
+			x := new(bill.Invoice)
+			if err := json.Unmarshal(b, x); err != nil {
+				e.Err2 = "harness-parse:" + err.Error()
+				return
+			}
+			if err := x.Calculate(); err != nil {
+				e.Err2 = err.Error()
+				return
+			}
+			e.Ok2, e.R2 = true, projectBill(invoiceBill(x))
+		}()
+		if !strings.HasPrefix(e.Err2, "harness-parse:") {
+			w.Emit(e)
+		}
+	}()
 	// removal of included taxes
 	if d.Inc != "" {
 		if x := reparse(); x != nil {
@@ -1006,6 +1069,9 @@ func randDoc(r *rand.Rand) jDoc {
 		x := jDocAdj{Amount: cdAmt(10000), Taxes: rCombos(r)}
 		if r.Intn(2) == 0 {
 			x.Pct = []tr.Amt{{V: tr.BigOfInt(int64(r.Intn(300))), E: 3}}
+			if r.Intn(3) == 0 {
+				x.Base = []tr.Amt{cdAmt(1000000)}
+			}
 		}
 		d.Charges = append(d.Charges, x)
 	}
